@@ -29,7 +29,7 @@ from checks.c16 import concrete_run
 # depend on it, so the same inputs are dumped several times from fresh constructions (different addresses, different orders)
 junk = []
 for attempt in range(12):
-  msg = concrete_run(%(name)r, %(inputs)r)
+  msg = concrete_run(%(name)r, %(inputs)r, %(pre)r)
   if msg: reproduced(msg)
   junk.append([object() for _ in range(37 * (attempt + 1))])
 '''
@@ -148,11 +148,11 @@ def _design(name):
   return VD.DESIGNS[name]()
 
 
-def _inputs_of(top, name=None):
+def _inputs_of(top, name=None, reset=False):
   from pymtl3.dsl import InPort
   from corpus import vcd_designs as VD
   only = VD.SYMBOLIC_PORTS.get(name or type(top).__name__)
-  return sorted(p for p in _all_inputs(top) if only is None or p[0] in only)
+  return sorted(p for p in _all_inputs(top) if only is None or p[0] in only) + ([('s.reset', 1)] if reset else [])
 
 
 def _all_inputs(top):
@@ -161,17 +161,23 @@ def _all_inputs(top):
                 if isinstance(x, InPort) and x.is_top_level_signal() and x.get_host_component() is top and repr(x) not in ('s.clk', 's.reset'))
 
 
-def concrete_run(name, inputs):
-  """replay on the pristine code: inputs = [ {port name: int} per cycle ]"""
+def concrete_run(name, inputs, pre=None):
+  """replay on the pristine code: inputs = [ {port name: int} per cycle ]; pre='sim_reset': the real sim_reset() runs
+  first and the per-cycle values are recorded at the edge by a function on the pass's own hook list"""
   from pymtl3 import DefaultPassGroup
   from pymtl3.passes.tracing.PrintTextWavePass import PrintTextWavePass
+  from pymtl3.passes.backends.verilog.tbgen.VerilogTBGenPass import VerilogTBGenPass
   top = _design(name); top.elaborate()
   fn = os.path.join(os.environ.get('VERIF_SCRATCH') or '.', f"c16_{name}")
-  top.apply(DefaultPassGroup(vcdwave=fn, textwave=True))
+  hook_snaps = []
   sigs = top_level_signals(top)
   val = lambda n: int(eval(n, {'s': top}).to_bits())
+  def dump_snap(): hook_snaps.append({n: val(n) for n in sigs})
+  if pre: top.set_metadata(VerilogTBGenPass.vtbgen_hooks, [dump_snap])
+  top.apply(DefaultPassGroup(vcdwave=fn, textwave=True))
   init_snap = {n: val(n) for n in sigs}
   snaps = []
+  if pre == 'sim_reset': top.sim_reset()
   for cyc in inputs:
     for port, v in cyc.items():
       obj = eval(port, {'s': top})              # after lock_in_simulation the attribute IS the value object
@@ -180,6 +186,9 @@ def concrete_run(name, inputs):
     settle(top)
     snaps.append({n: val(n) for n in sigs})
     top.sim_tick()
+  if pre:
+    if hook_snaps[len(hook_snaps) - len(snaps):] != snaps and top_is_pure_rtl(top): return f"design {name}: the values at the edge differ from the values after the combinational evaluation"
+    snaps = hook_snaps
   text = open(fn + '.vcd').read()
   tw = {n: list(v) for n, v in top.get_metadata(PrintTextWavePass.textwave_dict).items()}
 
@@ -194,7 +203,12 @@ def concrete_run(name, inputs):
     if av != b: return f"design {name}, inputs {inputs}: {what} is {av:#x} in the dump, the simulator held {b:#x}"
   clk_obj = eval('s.clk', {'s': top})
   members = {n for n in sigs if eval(n, {'s': top}) is clk_obj}
-  return check_dump(text, sigs, snaps, init_snap, eq, len(inputs), tw, members, lambda a, b: eval(a, {'s': top}) is eval(b, {'s': top}))
+  return check_dump(text, sigs, snaps, init_snap, eq, len(snaps), tw, members, lambda a, b: eval(a, {'s': top}) is eval(b, {'s': top}))
+
+
+def top_is_pure_rtl(top):
+  try: top.sim_eval_combinational(); return True
+  except (NotImplementedError, NameError): return False
 
 
 def settle(top):
@@ -236,27 +250,39 @@ def item(it):
   import pymtl3.passes.tracing.VcdGenerationPass as _v   # noqa (the package attribute of this name is the class)
   VGP = sys.modules['pymtl3.passes.tracing.VcdGenerationPass']
   name, K = it['name'], it['K']
-  res = Result(f"vcd/{name}/k={K}")
+  res = Result(f"vcd/{name}/k={K}" + ("/reset symbolic" if it.get('reset') == 'sym' else '') + (f"/after {it['pre']}()" if it.get('pre') else ''))
   Bits = sp.setup()
   install_text_standins(Bits)
   VGP.open = lambda fn, mode='r': MemFile(fn)
   probe_top = _design(name); probe_top.elaborate()
-  ivars = {(c, port): z3.BitVec(f"{port}@{c}", w) for c in range(K) for port, w in _inputs_of(probe_top)}
+  PRE = it.get('pre')
+  from pymtl3.passes.backends.verilog.tbgen.VerilogTBGenPass import VerilogTBGenPass
+  RST = it.get('reset') == 'sym'
+  ivars = {(c, port): z3.BitVec(f"{port}@{c}", w) for c in range(K) for port, w in _inputs_of(probe_top, reset=RST)}
 
   def body():
     SymStr.reg = []
     top = _design(name)
     fn = f"c16_{name}"
-    sim = SymSim(top, group=lambda t: (t.elaborate(), t.apply(DefaultPassGroup(vcdwave=fn, textwave=True))), nowrap=('dump_vcd', 'dump_wav'))
+    hook_snaps = []; holder = {}
+    def dump_snap(): hook_snaps.append({n: holder['sim'].sig_bv(n) for n in holder['sigs']})
+    def group(t):
+      t.elaborate()
+      if PRE: t.set_metadata(VerilogTBGenPass.vtbgen_hooks, [dump_snap])
+      t.apply(DefaultPassGroup(vcdwave=fn, textwave=True))
+    sim = SymSim(top, group=group, nowrap=('dump_vcd', 'dump_wav', 'dump_snap'))
     sigs = top_level_signals(top)
+    holder['sim'] = sim; holder['sigs'] = sigs
     val = lambda n: sim.sig_bv(n)
     init_snap = {n: val(n) for n in sigs}
     snaps = []
+    if PRE == 'sim_reset': top.sim_reset()
     for c in range(K):
-      for port, w in _inputs_of(top): sim.drive(port, ivars[(c, port)])
+      for port, w in _inputs_of(top, reset=RST): sim.drive(port, ivars[(c, port)])
       settle(top)
       snaps.append({n: val(n) for n in sigs})
       top.sim_tick()
+    if PRE: snaps = hook_snaps
     text = MemFile.files[fn + '.vcd'].text()
     tw = {n: list(v) for n, v in top.get_metadata(PrintTextWavePass.textwave_dict).items()}
     members = {n for n in sigs if sim.sig_value[n] is sim.sig_value['s.clk']}
@@ -272,7 +298,7 @@ def item(it):
       return [{port: m.eval(ivars[(c, port)], model_completion=True).as_long() for (c2, port) in sorted(ivars) if c2 == c} for c in range(K)]
     if exc is not None:
       rec['violations'].append(dict(key=f"vcd:{name}:raises {type(exc).__name__}", what=f"{res['name']}: simulation with waveform dumping raised {type(exc).__name__}: {str(exc)[:200]}",
-                                    replay=REPLAY % dict(name=name, inputs=model_inputs() or [])))
+                                    replay=REPLAY % dict(name=name, inputs=model_inputs() or [], pre=PRE)))
       return rec
     text, sigs, snaps, init_snap, tw, reg, members, same = out
     bad = []
@@ -301,12 +327,12 @@ def item(it):
       if v == 'unsat': rec['discharged'] += 1; return None
       if v == 'sat': bad.append((what + " differs from the value the simulator held", (t != b,))); return what
       rec['inconclusive'].append(f"{what}: solver unknown"); return None
-    msg = check_dump(text, sigs, snaps, init_snap, eq, K, tw, members, lambda a, b: same[a] == same[b])
+    msg = check_dump(text, sigs, snaps, init_snap, eq, len(snaps), tw, members, lambda a, b: same[a] == same[b])
     if msg is None: rec['discharged'] += 1
     else:
       extra = bad[-1][1] if bad else ()
       rec['violations'].append(dict(key=f"vcd:{name}:{(bad[-1][0] if bad else msg).split(' in cycle')[0][:70]}", what=f"{res['name']}: {bad[-1][0] if bad else msg}",
-                                    replay=REPLAY % dict(name=name, inputs=model_inputs(extra) or [])))
+                                    replay=REPLAY % dict(name=name, inputs=model_inputs(extra) or [], pre=PRE)))
     return rec
 
   fx = ForkExplorer(base_pc=[], leaf=leaf, max_paths=it.get('max_paths', 20000))
@@ -371,7 +397,11 @@ def item_render(it):
       res['obligations'] += 1; res['states'] += 1
       msg = concrete_run(name, inputs)
       if msg is None: res['discharged'] += 1
-      else: res['violations'].append(dict(key=f"vcd:{name}:concrete dump", what=msg, replay=REPLAY % dict(name=name, inputs=inputs)))
+      else: res['violations'].append(dict(key=f"vcd:{name}:concrete dump", what=msg, replay=REPLAY % dict(name=name, inputs=inputs, pre=None)))
+    res['obligations'] += 1; res['states'] += 1
+    msg = concrete_run(name, inputs, 'sim_reset')
+    if msg is None: res['discharged'] += 1
+    else: res['violations'].append(dict(key=f"vcd:{name}:concrete dump after sim_reset", what=msg, replay=REPLAY % dict(name=name, inputs=inputs, pre='sim_reset')))
   res['transitions'] = res['states']
   res['distinct'].append('vcd/rendering')
   res['samples'].append(f"rendering table: {len(cases)} (width, value) pairs; {4 * len(VD.DESIGNS)} concrete end-to-end dumps")
@@ -387,14 +417,14 @@ def main():
   chk = Check('C16', tier)
   from corpus import vcd_designs as VD
   K = 3 if tier == 'quick' else 5
-  items = [dict(name='rendering', kind='render')] + [dict(name=n, K=K) for n in VD.DESIGNS]
+  items = [dict(name='rendering', kind='render')] + [dict(name=n, K=K) for n in VD.DESIGNS] + [dict(name=n, K=K, reset='sym') for n in VD.SYM_RESET] + [dict(name=n, K=K - 1, pre='sim_reset') for n in VD.DESIGNS if n != 'VMany']
   for it, r in pmap(dispatch, items, item_timeout=900 if tier == 'quick' else 3600):
     chk.absorb(it, r)
-  chk.bounds = dict(designs=list(VD.DESIGNS), cycles=K, inputs='every top-level input symbolic in every cycle, from the power-on state', reset='held low')
-  chk.outside = ['designs outside the corpus (wider signals only change the terms, more nets multiply the paths by 2 per net and cycle)', 'sim_reset() sequences',
+  chk.bounds = dict(designs=list(VD.DESIGNS), cycles=K, inputs='every top-level input symbolic in every cycle, from the power-on state', reset='held low; symbolic in every cycle for ' + ', '.join(VD.SYM_RESET) + '; every design except VMany also after the real sim_reset() (K-1 further symbolic cycles)')
+  chk.outside = ['designs outside the corpus (wider signals only change the terms, more nets multiply the paths by 2 per net and cycle)',
                  'the rendering of digits itself: Bits.to_vcd_str / Bits.bin are replaced for symbolic payloads (the replay on the real code renders them)',
                  'the printed text wave (print_textwave); only its per-cycle record is compared', 'designs with method ports (update_once blocks are covered)']
-  chk.assumptions = ['Bits.to_vcd_str and Bits.bin return a value-comparing marker string for symbolic payloads', 'the dump functions run unwrapped inside the tick', 'open() inside VcdGenerationPass returns an in-memory file (fork mode: one copy per path)']
+  chk.assumptions = ['Bits.to_vcd_str and Bits.bin return a value-comparing marker string for symbolic payloads', 'the dump functions run unwrapped inside the tick', 'sim_reset() items: the per-cycle values are recorded at the edge by a function placed on the hook list PrepareSimPass itself reads (VerilogTBGenPass.vtbgen_hooks), right after the dump functions', 'open() inside VcdGenerationPass returns an in-memory file (fork mode: one copy per path)']
   chk.finish(rule="per design and path (= which nets were re-dumped in which cycle): the file written by the real VcdGenerationPass is read by an independent VCD reader; "
                   "one obligation per (signal, cycle) 'dumped value == value held before the edge', plus initial values, widths, the set of declared signals, clock toggling, "
                   "and the same for the text-wave record; the digit rendering (Bits.to_vcd_str / Bits.bin) against a finite table and one concrete end-to-end dump per design and input pattern (direct comparison)")
